@@ -493,22 +493,43 @@ def r7_make_mandatory(P, rep, ctx):
     f = F(ctx, fi)
     g = f.g
     mc = fi.params[0]
-    loops = [n for n in g.nodes if n.kind == "for" and isinstance(n.stmt.target, ast.Name)]
-    if len(loops) != 1:
-        raise AnalysisError("C13.R7: name loop of make_mandatory not found")
-    L, nm = loops[0].idx, loops[0].stmt.target.id
+    names_p = outer.node.args.vararg.arg if outer.node.args.vararg else outer.params[0]
+    loops = [n for n in g.nodes if n.kind == "for"]
+    vloops = [n for n in loops if isinstance(n.stmt.target, ast.Name) and f.x(n.stmt.iter) == names_p]
+    if len(vloops) != 1:
+        raise AnalysisError("C13.R7: the loop over the given names not found in make_mandatory")
+    L, nm = vloops[0].idx, vloops[0].stmt.target.id
     replaced = [(i, v) for i, v, b in f.stores(f"{mc}.__fields__[__k]")] + [(i, None) for i in f.deletes(f"{mc}.__fields__[__k]")]
     for i, v in replaced:
         rep.fail("C13.R7", fi.qual, f"field object replaced: {norm(g.nodes[i].stmt)[:70]}", f"make_mandatory replaces / removes the inherited field object ({norm(g.nodes[i].stmt)[:80]}): validators and constraints the parents attached to the field are lost, so the child accepts (and serialises) values its parent schema rejects", fi.loc(g.nodes[i].stmt))
-    req = [i for i, v, b in f.stores(f"{mc}.__fields__[{nm}].required") if norm(v) == "True"]
-    other_attr = [g.nodes[i].stmt for i, v, b in f.stores(f"{mc}.__fields__[__k].__a") if i not in req] if False else []
-    hint = [i for i, v, b in f.stores(f"{mc}.__annotations__[{nm}]") if f.x_at(i, g.nodes[i].stmt.value) == f"unoptional(field_parent_type({mc}, {nm}))"]
-    ok = bool(req) and bool(hint) and f.hit_before(L, nodes=req, src_edge=(L, "iter")) and f.hit_before(L, nodes=hint, src_edge=(L, "iter"))
+    WANT = "unoptional(field_parent_type({mc}, {k}))"
+    # the loop that applies the change: the name loop itself, or a second loop over a dict {name: new hint} built in it
+    ok = False
+    anchors = None
+    req_all = [i for i, v, b in f.stores(f"{mc}.__fields__[__k].required") if norm(v) == "True"]
+    for al in loops:
+        tg = al.stmt.target
+        if al is vloops[0]:
+            k_, h_want = nm, None
+        elif isinstance(tg, ast.Tuple) and len(tg.elts) == 2 and all(isinstance(x, ast.Name) for x in tg.elts) and isinstance(al.stmt.iter, ast.Call) and call_attr(al.stmt.iter) == "items" and isinstance(al.stmt.iter.func.value, ast.Name):
+            db = f.dict_build(al.stmt.iter.func.value)
+            fam = db["families"] if db is not None and not db["const"] else []
+            if len(fam) != 1 or fam[0]["src"] != names_p or fam[0]["key"] != "V0" or fam[0]["val"] != WANT.format(mc=mc, k="V0") or not MM.equivalent(fam[0]["kept"], "True"):
+                continue
+            k_, h_want = tg.elts[0].id, tg.elts[1].id
+            anchors = list(fam[0].get("nodes", []))  # what the second loop does happens for the names recorded here
+        else:
+            continue
+        req = [i for i, v, b in f.stores(f"{mc}.__fields__[{k_}].required") if norm(v) == "True"]
+        hint = [i for i, v, b in f.stores(f"{mc}.__annotations__[{k_}]") if (norm(g.nodes[i].stmt.value) == h_want if h_want else f.x_at(i, g.nodes[i].stmt.value) == WANT.format(mc=mc, k=k_))]
+        if req and hint and f.hit_before(al.idx, nodes=req, src_edge=(al.idx, "iter")) and f.hit_before(al.idx, nodes=hint, src_edge=(al.idx, "iter")) and f.hit_before(g.exit, nodes=[al.idx]) and set(req) == set(req_all):
+            ok = True
     rep.check(ok and not replaced, "C13.R7", fi.qual, "each named inherited field is flagged required in place and its hint becomes the parent's hint without Optional", fi.loc(), construct="make_mandatory tightening",
               message="make_mandatory does not (only) set `required = True` on the inherited field and narrow its hint to unoptional(parent hint)")
     missing = f.tests(f"{nm} not in {mc}.__fields__")
     own = f.tests(f"{nm} in get_annotations({mc})")
-    rep.check(f.refuses(missing) and f.refuses(own) and f.all_hit_before(req, nodes=f.test_nodes(missing)) and f.all_hit_before(req, nodes=f.test_nodes(own)), "C13.R7", fi.qual, "unknown fields and fields re-declared in the class are refused", fi.loc(), construct="make_mandatory refusals",
+    guarded = anchors if anchors else req_all
+    rep.check(f.refuses(missing) and f.refuses(own) and f.all_hit_before(guarded, nodes=f.test_nodes(missing), src=L) and f.all_hit_before(guarded, nodes=f.test_nodes(own), src=L), "C13.R7", fi.qual, "unknown fields and fields re-declared in the class are refused", fi.loc(), construct="make_mandatory refusals",
               message="make_mandatory accepts a name that is not an inherited field / that the class re-declares itself")
 
 
